@@ -114,7 +114,7 @@ PROPS = {
                  "by different trailing garbage (and with cap==len) give the identical outcome (read containment). Non-trivial = input of >=2 "
                  "bytes that decodes successfully or derives from a valid encoding; enumerated inputs distinct by construction, others by hash."),
         "jobs": [
-            {"run": "^TestC04(Mutated|Prefixes)$", "shards": 32, "timeout_quick": 600, "timeout_thorough": 3000},
+            {"run": "^TestC04(Mutated|Prefixes|JSONAny)$", "shards": 32, "timeout_quick": 600, "timeout_thorough": 3000},
             {"run": "^TestC04Exhaustive$", "shards": 16, "quick_shards": 4, "timeout_quick": 600, "timeout_thorough": 3000},
         ],
     },
@@ -151,11 +151,23 @@ PROPS = {
                  "UTF-8 after U+FFFD replacement. Non-trivial = output has a non-empty array or object; distinct by case hash."),
         "jobs": [{"run": "^TestC13", "shards": 32, "timeout_quick": 600, "timeout_thorough": 3000}],
     },
+    "C16": {
+        "rule": ("JSON-model trees: nil, bool, int (boundary-biased), float64 (by bits, incl. -0, NaN, Inf), strings (JSON-hostile pool, arbitrary "
+                 "bytes), json.Number (valid and invalid text), []any and map[string]any to depth 5 / width 5 with empty keys and empty or nil "
+                 "containers anywhere; the root is a container. Positions: top level by value and by pointer, struct field between two other "
+                 "fields, read into and written through a *[]any field, and as an unknown field skipped by a struct lacking it. Oracle: fresh "
+                 "instance with both codecs registered; decoded value equals the tree (nil and empty containers interchangeable, floats by bits); "
+                 "neighbouring fields exact in every position; Size==len(Append) with and without tag; the bytes parse exactly under an "
+                 "independent strict reader of the documented {key,type,value} entry format; Descriptor.Read gives valid JSON equal to the tree "
+                 "(sub-check skipped, and labelled, when the tree holds a non-finite float or a json.Number that is not a JSON number). "
+                 "Non-trivial = depth >=2 and >=3 distinct dynamic types; distinct by tree hash."),
+        "jobs": [{"run": "^TestC16", "shards": 16, "timeout_quick": 600, "timeout_thorough": 3000}],
+    },
 }
 
 # Properties not (yet) claimed, with the reason. Kept current by hand.
 NOT_APPLICABLE = {p: "check not built yet in this commit (work in progress; the technique applies, see DESIGN.md)" for p in
-                  ["C07", "C08", "C16", "C17", "C19", "C20"]}
+                  ["C07", "C08", "C17", "C19", "C20"]}
 
 # commits in /repo that add build-tag-guarded hooks
 HOOK_COMMITS = []
